@@ -29,7 +29,7 @@ type c06Params struct {
 func (c06) ID() string    { return "C06" }
 func (c06) Level() string { return "exploration" }
 func (c06) Rule() string {
-	return "each case: suite x dynamic-record-sizing on/off x transport segmentation (whole / random 1..available / one byte per transport read) x a sequence of write sizes per direction drawn around the interesting boundaries (0, 1, the 1208-byte ramp, 16383/16384/16385, multiples of 16384 up to 4x) x a cycle of read-buffer sizes from 1 byte to 64 KiB. The client writes, half-closes (CloseWrite), the server reads to EOF, writes, closes, the client reads to EOF. Oracle: every Write returns its length; concatenated reads equal concatenated writes followed by io.EOF; the wire monitor opens every record: plaintext <= 16384, ciphertext <= 16384+2048. distinct = distinct parameter vectors; non-trivial = both directions carried data and ended in EOF"
+	return "each case: suite x dynamic-record-sizing on/off x transport segmentation (whole / random 1..available / one byte per transport read) x a sequence of write sizes per direction drawn around the interesting boundaries (0, 1, the 1208-byte ramp, 16383/16384/16385, multiples of 16384 up to 4x; runs of 1..40 writes without payload) x a cycle of read-buffer sizes from 1 byte to 64 KiB. The client writes, half-closes (CloseWrite), the server reads to EOF, writes, closes, the client reads to EOF. Oracle: every Write returns its length; concatenated reads equal concatenated writes followed by io.EOF; the wire monitor opens every record: plaintext <= 16384, ciphertext <= 16384+2048. distinct = distinct parameter vectors; non-trivial = both directions carried data and ended in EOF"
 }
 func (c06) Components() (real, stub []string) {
 	return []string{"tlcp.Conn client+server (instrumented): Write/Read/CloseWrite/Close, record splitting and reassembly"},
@@ -72,6 +72,13 @@ func drawC06(src *vs.Src) *c06Params {
 			}
 			budget -= s
 			out = append(out, s)
+			if src.Bool(1, 12) {
+				// a run of writes without payload (each must report 0 and must not disturb the stream,
+				// however many there are)
+				for k := 1 + src.Intn(40); k > 0; k-- {
+					out = append(out, 0)
+				}
+			}
 		}
 		return out
 	}
